@@ -52,19 +52,39 @@ def scripts_for(tier, seed):
                        G.fault_scripts(seed, 60 if q else 600, 81300000,
                                        kinds=[k for k in G.KINDS if "hash" not in k and not k.startswith("p")])])
     from . import saveload, joins, cs
+    # (UuidMarker: marking draws a random id by design; scripts that only load / retrieve given ids - among
+    # them the nil uuid - and save are a function of the history and are compared as well)
+    def replayable(s):
+        if s["marker"] == "simple":
+            return True
+        return not any(o["o"] in ("mark", "create_marked", "lcreate_marked") or (o["o"] == "save" and o.get("rec")) for o in s["ops"])
     sl = [s for s in saveload.content_scripts(tier, rng, 82000000) + saveload.random_scripts(tier, rng, 82500000, 100 if q else 1500)
-          if s["marker"] == "simple"]
+          if replayable(s)]
+    for i in range(20 if q else 200):
+        ids = rng.sample(range(0, 9), rng.randint(2, 5))
+        if i % 2 == 0 and 0 not in ids:
+            ids[0] = 0
+        recs = [{"m": m, "a": 40 + m, "b": None, "r": rng.choice([None, [rng.choice(ids)]])} for m in ids]
+        ops = [{"o": "loadsynth", "w": 0, "recs": recs, "fmt": "json"}, {"o": "retrieve", "w": 0, "m": rng.choice(ids)},
+               {"o": "retrieve", "w": 0, "m": 11}, {"o": "save", "w": 0, "rec": False, "fmt": "json"},
+               {"o": "load", "w": 1, "blob": 0}, {"o": "save", "w": 1, "rec": False, "fmt": "ron"}]
+        sl.append({"tid": 82800000 + i, "marker": "uuid", "worlds": 2, "ops": ops})
     # several live entities carrying a copy of one marker id (inserted by hand), allocator maintenance, then
     # lookups and loads by that id: which entity wins must not depend on hash seeds
     for i in range(40 if q else 400):
-        k = rng.randint(3, 12)
+        k = rng.randint(3, 16)
         ops = [{"o": "create", "w": 0, "a": i, "b": None} for _ in range(k)]
-        ops.append({"o": "mark", "w": 0, "h": 0})
-        for j in range(1, k):
+        # (several distinct ids, some of them carried by more than one entity)
+        nm = 1 if i % 3 == 0 else min(k - 1, rng.randint(2, 6))
+        for j in range(nm):
+            ops.append({"o": "mark", "w": 0, "h": j})
+        for j in range(nm, k):
             if rng.random() < 0.8:
-                ops.append({"o": "copymark", "w": 0, "h": 0, "to": j})
+                ops.append({"o": "copymark", "w": 0, "h": rng.randrange(nm), "to": j})
+        ops.append({"o": "save", "w": 0, "rec": False, "fmt": "ron"})
         ops.append({"o": "amaintain", "w": 0})
-        ops.append({"o": "resolve", "w": 0, "m": 0})
+        for m in range(nm):
+            ops.append({"o": "resolve", "w": 0, "m": m})
         ops.append({"o": "loadsynth", "w": 0, "recs": [{"m": 0, "a": 7, "b": None, "r": None}], "fmt": "json"})
         ops.append({"o": "save", "w": 0, "rec": False, "fmt": "json"})
         sl.append({"tid": 82900000 + i, "marker": "simple", "worlds": 1, "ops": ops})
